@@ -1,217 +1,326 @@
 /-
-  C13, whole histories — the probe loop is never lost, duplicated or resurrected.
+  C13, whole histories — the recurring loops (probe round and the three periodic tasks) are never lost, duplicated
+  or resurrected.
 -/
 import FocaModel.Proofs.Timers
 import FocaModel.Props.C08H
 namespace Foca.C13H
 open Foca
 
-/-- tokens of the probe timers in a list of outstanding timers -/
-def probeTokensOf (T : List Timer) : List Nat :=
-  T.filterMap (fun t => match t with | .probe tok => some tok | _ => none)
+/-- the timer of loop `k` carrying token `tok` -/
+def LoopKind.timer : LoopKind → Nat → Timer
+  | .probe, tok => .probe tok
+  | .pa, tok => .pa tok
+  | .pad, tok => .pad tok
+  | .pg, tok => .pg tok
+
+theorem sel_timer (k : LoopKind) (tok : Nat) : k.sel (LoopKind.timer k tok) = some tok := by cases k <;> rfl
+
+/-- tokens of the timers of loop `k` in a list of outstanding timers -/
+def toksOf (k : LoopKind) (T : List Timer) : List Nat := T.filterMap k.sel
 
 /-- the timers a call scheduled -/
 def timersOf (eff : List Effect) : List Timer :=
   eff.filterMap (fun e => match e with | .timer _ t => some t | _ => none)
 
-theorem probeTokensOf_timersOf (eff : List Effect) : probeTokensOf (timersOf eff) = probeToks eff := by
+theorem toksOf_timersOf (k : LoopKind) (eff : List Effect) : toksOf k (timersOf eff) = loopToks k eff := by
   induction eff with
   | nil => rfl
   | cons e rest ih =>
     cases e with
-    | send d b => simpa [timersOf, probeTokensOf, probeToks] using ih
-    | notify n => simpa [timersOf, probeTokensOf, probeToks] using ih
+    | send d b => simpa [timersOf, toksOf, loopToks] using ih
+    | notify n => simpa [timersOf, toksOf, loopToks] using ih
     | timer ms t =>
-      cases t <;> simp [timersOf, probeTokensOf, probeToks] at ih ⊢ <;> exact ih
+      simp only [timersOf, toksOf, loopToks, List.filterMap_cons] at ih ⊢
+      cases k.sel t <;> simp [ih]
 
-theorem probeTokensOf_append (a b : List Timer) : probeTokensOf (a ++ b) = probeTokensOf a ++ probeTokensOf b := by
-  simp [probeTokensOf, List.filterMap_append]
+theorem toksOf_append (k : LoopKind) (a b : List Timer) : toksOf k (a ++ b) = toksOf k a ++ toksOf k b := by
+  simp [toksOf, List.filterMap_append]
 
-/-- outstanding probe timers that are effective (carry the current token) -/
-def effective (s : State) (T : List Timer) : Nat := (probeTokensOf T).count s.token
+/-- outstanding timers of loop `k` that are effective (carry the current token) -/
+def effective (k : LoopKind) (s : State) (T : List Timer) : Nat := (toksOf k T).count s.token
 
-/-- the property's assumption for one call: the epochs the call goes through do not land on the token of a probe
-    timer that is still outstanding ("fewer than 256 epoch changes between issue and delivery") -/
-def FreshFor (T : List Timer) (s s' : State) : Prop :=
-  ∀ t ∈ probeTokensOf T, ∀ e, s.epoch < e → e ≤ s'.epoch → t ≠ e % 256
+/-- the property's assumption for one call: the epochs the call goes through do not land on the token of a timer of
+    loop `k` that is still outstanding ("fewer than 256 epoch changes between issue and delivery") -/
+def FreshFor (k : LoopKind) (T : List Timer) (s s' : State) : Prop :=
+  ∀ t ∈ toksOf k T, ∀ e, s.epoch < e → e ≤ s'.epoch → t ≠ e % 256
 
-def connectedNat (s : State) : Nat := if s.conn = .connected then 1 else 0
+/-- the accounting of loop `k`: never more effective timers than `[connected]`, and exactly that many while the
+    loop is enabled (the probe loop always is; a periodic task can be switched off by `set_config`, then its last
+    timer is simply not re-armed) -/
+def LoopOk (k : LoopKind) (s : State) (T : List Timer) : Prop :=
+  effective k s T ≤ connNat s ∧ (k.en s.cfg = true → effective k s T = connNat s)
 
-/-- **One call that is not the delivery of a probe timer.** If the token is in step with the epoch counter and
-    exactly `[connected]` effective probe timers are outstanding, the same holds afterwards — with the timers the
-    call scheduled added — whatever the call is (any input, also a failing one), as long as the token does not
-    wrap onto an outstanding timer. Going idle, defunct or changing identity ends the epoch (every outstanding
-    timer becomes stale); becoming active starts exactly one loop. -/
-theorem probe_loop_step_other (E : Env) (s : State) (op : Op) (orc : Oracle) (T : List Timer)
-    (hop : ∀ tok, op ≠ .timer (.probe tok))
-    (htok : s.token = s.epoch % 256) (hinv : effective s T = connectedNat s) :
+/-- **One call that is not the delivery of a timer of loop `k`.** -/
+theorem loop_step_other (E : Env) (k : LoopKind) (s : State) (op : Op) (orc : Oracle) (T : List Timer)
+    (hop : ∀ t, op = .timer t → t.loopNo ≠ some k.no)
+    (htok : s.token = s.epoch % 256) (hinv : LoopOk k s T) :
     match step E s op orc with
-    | .done s' eff _ _ => s'.epoch < s.epoch + 256 → FreshFor T s s' →
-        s'.token = s'.epoch % 256 ∧ effective s' (T ++ timersOf eff) = connectedNat s'
+    | .done s' eff _ _ => s'.epoch < s.epoch + 256 → FreshFor k T s s' →
+        s'.token = s'.epoch % 256 ∧ LoopOk k s' (T ++ timersOf eff)
     | .stuck _ => True := by
-  have L := TimInv.leaves E s.epoch (effective s T)
-  have h0 : TimInv s.epoch (effective s T) s [] := by
+  have L := TimInv.leaves E k s.epoch (effective k s T)
+  have h0 : TimInv k s.epoch (effective k s T) s [] := by
     right
-    refine ⟨Nat.le_refl _, htok, ?_, ?_⟩
-    · intro t ht; simp [probeToks] at ht
-    · simp [probeToks]; exact hinv
-  have hrun := (L.runOp op (fun tok h => absurd h (hop tok))).run ⟨s, [], orc⟩ h0
+    refine ⟨Nat.le_refl _, htok, ?_, ?_, ?_⟩
+    · intro t ht; simp [loopToks] at ht
+    · simp [loopToks]; exact hinv.1
+    · intro hen; simp [loopToks]; exact hinv.2 hen
+  have hrun := (L.runOp op (fun t ht hl => TimInv.otherLoop E k s.epoch (effective k s T) t hl (hop t ht))).run
+    ⟨s, [], orc⟩ h0
   unfold step
-  have fin : ∀ (s' : State) (eff : List Effect), TimInv s.epoch (effective s T) s' eff →
-      s'.epoch < s.epoch + 256 → FreshFor T s s' →
-      s'.token = s'.epoch % 256 ∧ effective s' (T ++ timersOf eff) = connectedNat s' := by
+  have fin : ∀ (s' : State) (eff : List Effect), TimInv k s.epoch (effective k s T) s' eff →
+      s'.epoch < s.epoch + 256 → FreshFor k T s s' →
+      s'.token = s'.epoch % 256 ∧ LoopOk k s' (T ++ timersOf eff) := by
     intro s' eff hT hb hf
-    rcases hT with hT | ⟨g1, g2, _, g4⟩
+    rcases hT with hT | ⟨g1, g2, _, g4, g5⟩
     · omega
     · refine ⟨g2, ?_⟩
-      unfold effective connectedNat at *
-      rw [probeTokensOf_append, List.count_append, probeTokensOf_timersOf]
+      unfold LoopOk effective at *
+      rw [toksOf_append, List.count_append, toksOf_timersOf]
       by_cases hep : s'.epoch = s.epoch
       · have : s'.token = s.token := by rw [g2, htok, hep]
-        simp only [hep, if_true] at g4
-        rw [this] at g4 ⊢
-        omega
-      · have hz : (probeTokensOf T).count s'.token = 0 := by
+        simp only [hep, if_true] at g4 g5
+        rw [this] at g4 g5 ⊢
+        exact ⟨by omega, fun hen => by have := g5 hen; omega⟩
+      · have hz : (toksOf k T).count s'.token = 0 := by
           rw [List.count_eq_zero]
           intro hmem
           exact hf _ hmem s'.epoch (by omega) (Nat.le_refl _) g2
-        simp only [hep, if_false, Nat.add_zero] at g4
-        omega
+        simp only [hep, if_false, Nat.add_zero] at g4 g5
+        exact ⟨by omega, fun hen => by have := g5 hen; omega⟩
   cases hr : runOp E op ⟨s, [], orc⟩ with
   | stuck x => trivial
   | ok r c => rw [hr] at hrun; exact fin _ _ hrun
   | err e c => rw [hr] at hrun; exact fin _ _ hrun
 
-/-- **The delivery of an outstanding probe timer.** `T` is what is outstanding besides the delivered timer.
-    A stale timer (another token) changes nothing. An effective one can only exist while connected, and the round
-    it starts re-arms the loop exactly once in the same epoch — also when it reports `IncompleteProbeCycle` —
-    unless a send fails with `Encode` (a header that does not fit the packet). -/
-theorem probe_loop_step_probe (E : Env) (s : State) (tok : Nat) (orc : Oracle) (T : List Timer)
-    (htok : s.token = s.epoch % 256) (hinv : effective s (.probe tok :: T) = connectedNat s) :
+theorem effective_cons (k : LoopKind) (s : State) (tok : Nat) (T : List Timer) :
+    effective k s (LoopKind.timer k tok :: T) = (if tok = s.token then 1 else 0) + effective k s T := by
+  unfold effective toksOf
+  simp only [List.filterMap_cons, sel_timer, List.count_cons]
+  by_cases h : tok = s.token
+  · simp [h]; omega
+  · simp [h]
+
+/-- **The delivery of an outstanding probe timer** (`T`: what is outstanding besides it). A stale one changes
+    nothing; an effective one can only exist while connected, and its round re-arms the loop exactly once — also
+    when it reports `IncompleteProbeCycle` — unless a send fails with `Encode`. -/
+theorem loop_step_probe (E : Env) (s : State) (tok : Nat) (orc : Oracle) (T : List Timer)
+    (htok : s.token = s.epoch % 256) (hinv : LoopOk .probe s (.probe tok :: T)) :
     match step E s (.timer (.probe tok)) orc with
     | .done s' eff r _ => (r = .ok ∨ r = .err .incompleteProbe) →
-        s'.token = s'.epoch % 256 ∧ effective s' (T ++ timersOf eff) = connectedNat s'
+        s'.token = s'.epoch % 256 ∧ LoopOk .probe s' (T ++ timersOf eff)
     | .stuck _ => True := by
+  have hc := effective_cons .probe s tok T
+  have hinv2 := hinv.2 rfl
   unfold step runOp
   simp only [bind_run]
   by_cases hst : tok = s.token
   · subst hst
-    -- effective: the instance must be connected
     have hconn : s.conn = .connected := by
-      unfold effective connectedNat probeTokensOf at hinv
-      simp only [List.filterMap_cons, List.count_cons_self] at hinv
-      by_cases hc : s.conn = .connected
-      · exact hc
-      · simp [hc] at hinv
-    have hT0 : effective s T = 0 := by
-      unfold effective probeTokensOf at hinv ⊢
-      unfold connectedNat at hinv
-      simp only [List.filterMap_cons, List.count_cons_self, hconn, if_true] at hinv
+      have : effective .probe s (LoopKind.timer .probe s.token :: T) = connNat s := hinv2
+      rw [hc] at this
+      unfold connNat at this
+      by_cases hcn : s.conn = .connected
+      · exact hcn
+      · simp [hcn] at this
+    have hT0 : effective .probe s T = 0 := by
+      have : effective .probe s (LoopKind.timer .probe s.token :: T) = connNat s := hinv2
+      rw [hc] at this
+      unfold connNat at this
+      simp [hconn] at this
       omega
     have hre := probeRandomMember_rearms E ⟨s, [], orc⟩
     have hht : handleTimer E (.probe s.token) ⟨s, [], orc⟩ = probeRandomMember E ⟨s, [], orc⟩ := by
       unfold handleTimer
       simp [hconn]
     rw [hht]
-    unfold Rearmed at hre
-    have fin : ∀ (c' : Ctx), QuietSince ⟨s, [], orc⟩ c'.s c'.eff.dropLast →
-        (∃ p, c'.eff = c'.eff.dropLast ++ [.timer p (.probe s.token)]) →
-        c'.s.token = c'.s.epoch % 256 ∧ effective c'.s (T ++ timersOf c'.eff) = connectedNat c'.s := by
-      intro c' hq hp
-      obtain ⟨q1, q2, q3, q4⟩ := hq
-      obtain ⟨p, hp⟩ := hp
-      simp only at q1 q2 q3 q4
+    unfold ProbeRound at hre
+    have fin : ∀ (c' : Ctx), Rearmed .probe ⟨s, [], orc⟩ c'.s c'.eff →
+        c'.s.token = c'.s.epoch % 256 ∧ LoopOk .probe c'.s (T ++ timersOf c'.eff) := by
+      intro c' hq
+      obtain ⟨q1, q2, q3, q4, q5⟩ := hq
+      simp only at q1 q2 q3 q4 q5
       refine ⟨by rw [q2, q3]; exact htok, ?_⟩
-      unfold effective connectedNat at *
-      rw [probeTokensOf_append, List.count_append, probeTokensOf_timersOf, hp, probeToks_append, q4, q2, q1, hconn]
-      simp [probeToks]
-      exact hT0
+      have heq : effective .probe c'.s (T ++ timersOf c'.eff) = connNat c'.s := by
+        unfold effective connNat at *
+        rw [toksOf_append, List.count_append, toksOf_timersOf, q5, q2, q1, hconn]
+        simp [loopToks]
+        exact hT0
+      exact ⟨by omega, fun _ => heq⟩
     cases hr : probeRandomMember E ⟨s, [], orc⟩ with
     | stuck x => trivial
     | ok u c' =>
       rw [hr] at hre
       simp only [pure_run]
       intro _
-      exact fin c' hre.1 hre.2
+      exact fin c' hre
     | err e c' =>
       rw [hr] at hre
       simp only
       intro hres
-      rcases hre with ⟨_, hq, hp⟩ | ⟨hne, _⟩
-      · exact fin c' hq hp
+      rcases hre with ⟨_, hq⟩ | ⟨hne, _⟩
+      · exact fin c' hq
       · rcases hres with h | h
         · cases h
         · simp at h; exact absurd h hne
-  · -- a stale timer: nothing happens
-    have := C13.stale_timer_is_noop E (.probe tok) tok ⟨s, [], orc⟩ rfl hst
+  · have := C13.stale_timer_is_noop E (.probe tok) tok ⟨s, [], orc⟩ rfl hst
     rw [this]
     simp only [pure_run]
     intro _
     refine ⟨htok, ?_⟩
-    unfold effective probeTokensOf at hinv ⊢
-    simp only [timersOf, List.filterMap_nil, List.append_nil]
-    simp only [List.filterMap_cons] at hinv
-    rw [List.count_cons] at hinv
-    have : (tok == s.token) = false := by simpa using hst
-    simp only [this, Bool.false_eq_true, if_false, Nat.add_zero] at hinv
+    have he : effective .probe s (T ++ timersOf []) = effective .probe s (LoopKind.timer .probe tok :: T) := by
+      rw [hc]; simp [hst, timersOf]
+    unfold LoopOk at *
+    rw [he]
     exact hinv
 
-theorem effective_middle (s : State) (T1 T2 : List Timer) (t : Timer) :
-    effective s (T1 ++ t :: T2) = effective s (t :: (T1 ++ T2)) := by
-  unfold effective
+/-- **The delivery of an outstanding timer of a periodic task** `k` (`T`: what is outstanding besides it).
+    Effective and enabled: re-armed exactly once, before anything is sent. Effective but switched off by
+    `set_config` in the meantime: the loop ends here. Stale: nothing happens. Whatever the call returns. -/
+theorem loop_step_periodic (E : Env) (k : LoopKind) (hk : k ≠ .probe) (s : State) (tok : Nat) (orc : Oracle)
+    (T : List Timer) (htok : s.token = s.epoch % 256) (hinv : LoopOk k s (LoopKind.timer k tok :: T)) :
+    match step E s (.timer (LoopKind.timer k tok)) orc with
+    | .done s' eff _ _ => s'.token = s'.epoch % 256 ∧ LoopOk k s' (T ++ timersOf eff)
+    | .stuck _ => True := by
+  have hc := effective_cons k s tok T
+  have hround : PeriodicRound k tok ⟨s, [], orc⟩ (handleTimer E (LoopKind.timer k tok) ⟨s, [], orc⟩) := by
+    cases k with
+    | probe => exact absurd rfl hk
+    | pa => exact periodicAnnounce_round E tok _
+    | pad => exact periodicAnnounceDown_round E tok _
+    | pg => exact periodicGossip_round E tok _
+  unfold step runOp
+  simp only [bind_run]
+  unfold PeriodicRound at hround
+  have fin : ∀ (c' : Ctx),
+      (if tok = s.token ∧ s.conn = .connected ∧ k.en s.cfg = true then Rearmed k ⟨s, [], orc⟩ c'.s c'.eff
+        else QuietSince k ⟨s, [], orc⟩ c'.s c'.eff) →
+      c'.s.token = c'.s.epoch % 256 ∧ LoopOk k c'.s (T ++ timersOf c'.eff) := by
+    intro c' h
+    by_cases hcase : tok = s.token ∧ s.conn = .connected ∧ k.en s.cfg = true
+    · rw [if_pos hcase] at h
+      obtain ⟨q1, q2, q3, q4, q5⟩ := h
+      simp only at q1 q2 q3 q4 q5
+      refine ⟨by rw [q2, q3]; exact htok, ?_⟩
+      have he : effective k c'.s (T ++ timersOf c'.eff) = effective k s (LoopKind.timer k tok :: T) := by
+        rw [hc]
+        unfold effective
+        rw [toksOf_append, List.count_append, toksOf_timersOf, q5, q2]
+        simp [loopToks, hcase.1]
+        omega
+      have hcn : connNat c'.s = connNat s := by unfold connNat; rw [q1]
+      unfold LoopOk at *
+      rw [he, hcn, q4]
+      exact hinv
+    · rw [if_neg hcase] at h
+      obtain ⟨q1, q2, q3, q4, q5⟩ := h
+      simp only at q1 q2 q3 q4 q5
+      refine ⟨by rw [q2, q3]; exact htok, ?_⟩
+      have he : effective k c'.s (T ++ timersOf c'.eff) = effective k s T := by
+        unfold effective
+        rw [toksOf_append, List.count_append, toksOf_timersOf, q5, q2]
+        simp [loopToks]
+      have hcn : connNat c'.s = connNat s := by unfold connNat; rw [q1]
+      unfold LoopOk at *
+      rw [he, hcn, q4]
+      rw [hc] at hinv
+      by_cases ht : tok = s.token
+      · simp only [ht, if_true] at hinv
+        refine ⟨by omega, fun hen => ?_⟩
+        -- effective and enabled but not connected is impossible: one effective timer needs `connected`
+        have hnc : ¬ s.conn = .connected := fun hcn' => hcase ⟨ht, hcn', hen⟩
+        have : connNat s = 0 := by unfold connNat; simp [hnc]
+        omega
+      · simp only [ht, if_false, Nat.zero_add] at hinv
+        exact hinv
+  cases hr : handleTimer E (LoopKind.timer k tok) ⟨s, [], orc⟩ with
+  | stuck x => trivial
+  | ok u c' => rw [hr] at hround; simp only [pure_run]; exact fin c' hround
+  | err e c' => rw [hr] at hround; simp only; exact fin c' hround
+
+theorem effective_middle (k : LoopKind) (s : State) (T1 T2 : List Timer) (t : Timer) :
+    effective k s (T1 ++ t :: T2) = effective k s (t :: (T1 ++ T2)) := by
+  unfold effective toksOf
   have : (T1 ++ t :: T2).Perm (t :: (T1 ++ T2)) := List.perm_middle
   exact (this.filterMap _).count_eq _
 
-/-- a history of an instance together with its outstanding timers: every timer the instance scheduled is in the
-    list until the runtime delivers it, exactly once, at any later point and in any order -/
-inductive ProbeHistory (E : Env) : State → List Timer → Prop
-  | init (id : Id) (pol : Policy) (cfg : Config) : ProbeHistory E (State.init id pol cfg) []
-  /-- any call that is not the delivery of a probe timer (API calls, datagrams, other timers) -/
+/-- a history of an instance together with its outstanding timers, from the point of view of loop `k`: every
+    timer the instance scheduled is in the list until the runtime delivers it, exactly once, at any later point
+    and in any order -/
+inductive LoopHistory (E : Env) (k : LoopKind) : State → List Timer → Prop
+  | init (id : Id) (pol : Policy) (cfg : Config) : LoopHistory E k (State.init id pol cfg) []
+  /-- any call that is not the delivery of a timer of loop `k` (API calls, datagrams, timers of other kinds) -/
   | call {s s' : State} {T : List Timer} (op : Op) (orc : Oracle) (eff : List Effect) (r : Res) (left : Oracle) :
-      ProbeHistory E s T → (∀ tok, op ≠ .timer (.probe tok)) → Foca.step E s op orc = .done s' eff r left →
-      s'.epoch < s.epoch + 256 → FreshFor T s s' → ProbeHistory E s' (T ++ timersOf eff)
-  /-- the runtime delivers an outstanding probe timer (the call returns `Ok` or `IncompleteProbeCycle`) -/
+      LoopHistory E k s T → (∀ t, op = .timer t → t.loopNo ≠ some k.no) →
+      Foca.step E s op orc = .done s' eff r left →
+      s'.epoch < s.epoch + 256 → FreshFor k T s s' → LoopHistory E k s' (T ++ timersOf eff)
+  /-- the runtime delivers an outstanding timer of loop `k` (for the probe loop: the round does not fail on a send) -/
   | fire {s s' : State} {T1 T2 : List Timer} (tok : Nat) (orc : Oracle) (eff : List Effect) (r : Res) (left : Oracle) :
-      ProbeHistory E s (T1 ++ .probe tok :: T2) →
-      Foca.step E s (.timer (.probe tok)) orc = .done s' eff r left → (r = .ok ∨ r = .err .incompleteProbe) →
-      ProbeHistory E s' (T1 ++ T2 ++ timersOf eff)
+      LoopHistory E k s (T1 ++ LoopKind.timer k tok :: T2) →
+      Foca.step E s (.timer (LoopKind.timer k tok)) orc = .done s' eff r left →
+      (k = .probe → r = .ok ∨ r = .err .incompleteProbe) →
+      LoopHistory E k s' (T1 ++ T2 ++ timersOf eff)
   /-- a delivered timer of another kind leaves the list -/
   | delivered {s : State} {T1 T2 : List Timer} (t : Timer) :
-      ProbeHistory E s (T1 ++ t :: T2) → (∀ tok, t ≠ .probe tok) → ProbeHistory E s (T1 ++ T2)
+      LoopHistory E k s (T1 ++ t :: T2) → k.sel t = none → LoopHistory E k s (T1 ++ T2)
 
-/-- **Exactly one probe timer.** At every point of any history — timers delivered exactly once, in any order and
-    however late, interleaved with datagrams and API calls that change connection state or identity — an instance
-    that is connected has exactly one outstanding probe timer that is still effective, and an instance that is
-    not connected has none: the loop is never lost, never duplicated, and a timer of an earlier epoch is never
-    effective again (as long as the `u8` token does not wrap onto an outstanding timer, and no send in a probe
-    round fails with `Encode`). -/
-theorem exactly_one_probe_timer (E : Env) {s : State} {T : List Timer} (h : ProbeHistory E s T) :
-    s.token = s.epoch % 256 ∧ effective s T = connectedNat s := by
+/-- **Exactly one timer per loop.** At every point of any history — timers delivered exactly once, in any order
+    and however late, interleaved with datagrams and API calls that change connection state, identity or
+    configuration — the accounting of every loop holds: a connected instance has exactly one outstanding
+    effective timer of the probe loop and of every enabled periodic task, an instance that is not connected has
+    none; the loop is never lost, never duplicated, and a timer of an earlier epoch is never effective again
+    (as long as the `u8` token does not wrap onto an outstanding timer, and no send of a probe round fails with
+    `Encode`). -/
+theorem exactly_one_timer_per_loop (E : Env) (k : LoopKind) {s : State} {T : List Timer} (h : LoopHistory E k s T) :
+    s.token = s.epoch % 256 ∧ LoopOk k s T := by
   induction h with
-  | init id pol cfg => exact ⟨rfl, by simp [effective, probeTokensOf, connectedNat, State.init]⟩
+  | init id pol cfg =>
+    refine ⟨rfl, ?_⟩
+    unfold LoopOk effective connNat toksOf
+    simp [State.init]
   | call op orc eff r left _ hop hstep hb hf ih =>
-    have := probe_loop_step_other E _ op orc _ hop ih.1 ih.2
+    have := loop_step_other E k _ op orc _ hop ih.1 ih.2
     rw [hstep] at this
     exact this hb hf
   | @fire s0 s1 T1 T2 tok orc eff r left _ hstep hres ih =>
-    have h2 : effective s0 (.probe tok :: (T1 ++ T2)) = connectedNat s0 := by
+    have h2 : LoopOk k s0 (LoopKind.timer k tok :: (T1 ++ T2)) := by
+      unfold LoopOk at *
       rw [← effective_middle]; exact ih.2
-    have := probe_loop_step_probe E s0 tok orc (T1 ++ T2) ih.1 h2
-    rw [hstep] at this
-    exact this hres
+    by_cases hk : k = .probe
+    · subst hk
+      have := loop_step_probe E s0 tok orc (T1 ++ T2) ih.1 h2
+      rw [show (Timer.probe tok) = LoopKind.timer .probe tok from rfl] at this
+      rw [hstep] at this
+      exact this (hres rfl)
+    · have := loop_step_periodic E k hk s0 tok orc (T1 ++ T2) ih.1 h2
+      rw [hstep] at this
+      exact this
   | @delivered s0 T1 T2 t _ hne ih =>
     refine ⟨ih.1, ?_⟩
-    rw [← ih.2, effective_middle]
-    unfold effective probeTokensOf
-    cases t with
-    | probe tok => exact absurd rfl (hne tok)
-    | _ => simp
+    have : effective k s0 (T1 ++ T2) = effective k s0 (T1 ++ t :: T2) := by
+      rw [effective_middle]
+      unfold effective toksOf
+      simp [List.filterMap_cons, hne]
+    unfold LoopOk at *
+    rw [this]
+    exact ih.2
+
+/-- … in particular: exactly one effective probe timer while connected, none otherwise -/
+theorem exactly_one_probe_timer (E : Env) {s : State} {T : List Timer} (h : LoopHistory E .probe s T) :
+    effective .probe s T = connNat s := (exactly_one_timer_per_loop E .probe h).2.2 rfl
+
+/-- … and exactly one effective timer of every enabled periodic task while connected -/
+theorem exactly_one_timer_per_enabled_task (E : Env) (k : LoopKind) {s : State} {T : List Timer}
+    (h : LoopHistory E k s T) (hen : k.en s.cfg = true) (hc : s.conn = .connected) : effective k s T = 1 := by
+  have := (exactly_one_timer_per_loop E k h).2.2 hen
+  rw [this]; unfold connNat; simp [hc]
 
 /-- non-vacuity: a member joins — the instance becomes active with one effective probe timer outstanding -/
-example : ∃ s T, ProbeHistory C08H.exEnv s T ∧ s.conn = .connected ∧ effective s T = 1 := by
-  refine ⟨_, _, ProbeHistory.call (.applyMany [⟨⟨2, 0⟩, 0, .alive⟩] false) ⟨[.idx 0], []⟩ _ _ _
-    (ProbeHistory.init ⟨1, 0⟩ .none C08H.exCfg) (by intro tok h; cases h) rfl (by decide)
-    (by intro t ht; simp [probeTokensOf] at ht), ?_, ?_⟩
+example : ∃ s T, LoopHistory C08H.exEnv .probe s T ∧ s.conn = .connected ∧ effective .probe s T = 1 := by
+  refine ⟨_, _, LoopHistory.call (.applyMany [⟨⟨2, 0⟩, 0, .alive⟩] false) ⟨[.idx 0], []⟩ _ _ _
+    (LoopHistory.init ⟨1, 0⟩ .none C08H.exCfg) (by intro t h; cases h) rfl (by decide)
+    (by intro t ht; simp [toksOf] at ht), ?_, ?_⟩
   · decide
   · decide
 
